@@ -43,7 +43,8 @@ def std_config(d, ca, certs, accounts=None, ca_names=None, global_extra=None, ho
         e = {'account': c.get('account', accounts[0]['name']), 'endpoint': c.get('endpoint', ca_names[0]),
              'hooks': c.get('hooks', ['h_all']), 'name': name,
              'key_type': c.get('key_type', 'ecdsa_p256'),
-             'env': dict({'VERIF_CERT': name}, **c.get('env', {})),
+             # (certificates may share a name when their key types differ: the recorder tells them apart by `verif_id`)
+             'env': dict({'VERIF_CERT': c.get('verif_id', name)}, **c.get('env', {})),
              'identifiers': c['identifiers']}
         for k in ('csr_digest', 'kp_reuse', 'renew_delay', 'random_early_renew', 'directory', 'file_name_format',
                   'subject_attributes'):
